@@ -191,6 +191,18 @@ def run(ctx):
                   for i, p in enumerate(paths)])
     hs2 = ctx.cli([dict(args=["hash", "transaction", p, "--signature", (so[i].stdout.decode().strip()[2:] if so[i].cls == "ok" else "00")])
                    for i, p in enumerate(paths)])
+    # the same pipeline with the document on standard input at both ends, and the options in the other order
+    so_in = ctx.cli([dict(args=acct + ["--signature-only", "-"], stdin=js.encode()) for _, js in txs])
+    hs_in = ctx.cli([dict(args=["hash", "transaction", "--signature", (so[i].stdout.decode().strip() if so[i].cls == "ok" else "0x00"), "-"], stdin=js.encode())
+                     for i, (_, js) in enumerate(txs)])
+    hs_in2 = ctx.cli([dict(args=["hash", "transaction", "-", "--signature=" + (so[i].stdout.decode().strip() if so[i].cls == "ok" else "0x00")], stdin=js.encode())
+                      for i, (_, js) in enumerate(txs)])
+    for i, (t, js) in enumerate(txs):
+        ctx.count("pipeline/stdin")
+        if so[i].cls == "ok" and (so_in[i].cls != "ok" or so_in[i].stdout != so[i].stdout or hs_in[i].cls != hs[i].cls or hs_in[i].stdout != hs[i].stdout
+                                   or hs_in2[i].cls != hs[i].cls or hs_in2[i].stdout != hs[i].stdout):
+            ctx.violation("pipeline-on-standard-input", dict(op="sign transaction --signature-only - | hash transaction --signature SIG -", tx=short(js, 200), kind=t.kind),
+                          dict(signature=str(so[i])[:200], hash=str(hs[i])[:200]), dict(signature=str(so_in[i])[:200], hash=str(hs_in[i])[:200], hash_other_order=str(hs_in2[i])[:200]))
     for i, (t, js) in enumerate(txs):
         case = dict(op="sign transaction --signature-only | hash transaction --signature", tx=short(js, 200), kind=t.kind)
         ctx.count("pipeline/kind%d" % t.kind)
